@@ -105,6 +105,8 @@ def fuzz(rng):
     pond = 0.0
     if rng.random() < 0.6:
         pond = float(z_bund * rng.choice([rng.random(), 1.0, 0.0]))
+    if rng.random() < 0.15:
+        pond = float(30.0 * rng.random())   # ponded water left behind removed / too-low bunds
     ro0 = float(rng.choice([0.0, 5.0, 80.0]) * rng.random())
     gs = bool(rng.random() < 0.6)
     return (p, pond, fc_adj, th, infl, irr, app_eff, bunds, z_bund, flux, dp0, ro0, gs)
